@@ -163,17 +163,18 @@ class QtyDecl:
             return "single"
         return "ref" if self.ref is not None else "noref"
 
-    def expected_order(self):
+    def expected_order(self, generated_scale=None):
         """The specified iteration order (C09): with reference unit:
         non-decreasing scale, reference unit first among scale-one units,
-        declaration order for other ties; without: name order."""
+        declaration order for other ties; without: name order.
+        generated_scale(unit decl) supplies the scale of a unit whose attribute does not spell it as a literal."""
         if self.kind() == "single":
             return list(self.units)
         if self.ref is not None:
             others = [u for u in self.units if not u.is_ref]
             seq = [self.ref] + others
             # stable sort by exact declared scale
-            return sorted(seq, key=lambda u: u.scale)
+            return sorted(seq, key=lambda u: u.scale if u.scale is not None or generated_scale is None else generated_scale(u))
         return sorted(self.units, key=lambda u: u.name)
 
 
